@@ -22,4 +22,5 @@ var extraCmds = map[string]func([]string){
 	"output": records.OutputMain,
 	"api":    records.ApiMain,
 	"osstop": records.OsstopMain,
+	"conc":   records.ConcMain,
 }
